@@ -240,11 +240,33 @@ class _CanonStmts(ast.NodeTransformer):
         if self.uses:
             for fld in ("body", "orelse", "finalbody"):
                 b = getattr(node, fld, None)
-                if isinstance(b, list) and len(b) >= 2 and isinstance(b[0], ast.stmt):
+                if isinstance(b, list) and len(b) >= 1 and isinstance(b[0], ast.stmt):
                     setattr(node, fld, self._fold_returns(b))
         return node
 
+    def _ifexp_to_if(self, body):
+        """`x = a if c else b` -> `if c: x = a else: x = b`; `return a if c else b` -> `if c: return a else: return b`
+        (the branch becomes visible to the control-flow graph; nested conditional expressions stay expressions)"""
+        import copy as _copy
+        out = []
+        for st in body:
+            if isinstance(st, ast.Assign) and isinstance(st.value, ast.IfExp) and len(st.targets) == 1 and isinstance(st.targets[0], ast.Name):
+                v = st.value
+                a = ast.copy_location(ast.Assign(targets=[_copy.deepcopy(st.targets[0])], value=v.body), st)
+                b = ast.copy_location(ast.Assign(targets=[_copy.deepcopy(st.targets[0])], value=v.orelse), st)
+                out.append(ast.copy_location(ast.If(test=v.test, body=self._ifexp_to_if([a]), orelse=self._ifexp_to_if([b])), st))
+            elif isinstance(st, ast.Return) and isinstance(st.value, ast.IfExp):
+                v = st.value
+                out.append(ast.copy_location(ast.If(test=v.test, body=self._ifexp_to_if([ast.copy_location(ast.Return(value=v.body), st)]),
+                                                    orelse=self._ifexp_to_if([ast.copy_location(ast.Return(value=v.orelse), st)])), st))
+            else:
+                out.append(st)
+        return out
+
     def _fold_returns(self, body):
+        return self._ifexp_to_if(self._fold_pairs(body))
+
+    def _fold_pairs(self, body):
         out = []
         i = 0
         while i < len(body):
